@@ -212,14 +212,20 @@ def run(ctx, replay):
     ctx.cov["evaluations"] = len(sel)
     ctx.cov["distinct_nontrivial"] = sum(1 for row in sel if nontrivial(row))
     ctx.cov["rows_by_table"] = {tab: sum(1 for row in sel if row["in"]["tab"] == tab)
-                                for tab in ("align", "verdict", "action", "shape", "realdkim")}
+                                for tab in ("align", "verdict", "action", "shape", "realdkim", "coop")}
+    ctx.cov["cooperating_check_rows"] = sum(1 for row in sel if row["in"].get("cq", "no") != "no")
+    ctx.cov["per_recipient_body_path_rows"] = sum(1 for row in sel if row["in"].get("path") == "na")
     ctx.cov["slow_lookup_rows"] = sum(1 for row in sel if row["in"]["slow"])
     ctx.cov["rule"] = ("rows = states of Dmarc.tla (one per input; distinct by construction): alignment table (4 From "
                        "domains x 2 spellings x 16 identifier spellings x DKIM/MAIL FROM/HELO x r/s), verdict table "
                        "(multisets of <= MaxDkim DKIM results over pass/fail/temperror x 4 domain relations, 7 SPF values x "
                        "4 relations, adkim x aspf, 6 From/case contexts), action table (7 identifier situations x p x sp x pct x "
                        "13/5 lookup outcomes x 3 From domains x 2 spellings x policy lookup fast / still unanswered when the "
-                       "pipeline-wide body checks return), From shapes, real messages (unsigned / valid / broken signature) "
+                       "pipeline-wide body checks return), the coop table (7 identifier situations x p x sp x 3 lookup "
+                       "outcomes x 2 From domains x a second check of the pipeline quarantining at the sender stage "
+                       "(pipeline-wide block) / at the body stage (source block) / the message arriving already flagged / "
+                       "not at all x atomic / per-recipient "
+                       "body path), From shapes, real messages (unsigned / valid / broken signature) "
                        "evaluated by the real check.dkim; quick runs all but a seeded "
                        "quarter of the verdict table (MaxDkim=2) through the code, thorough everything (MaxDkim=3); "
                        "non-trivial = not a verdict-table row whose identifiers are all plain non-pass/non-temperror")
@@ -258,7 +264,9 @@ META = {
             "the same predicates on the verdict (Verifier.Apply) and action (SMTP error class / quarantine flag of the "
             "real pipeline) the code produced for every row (quick: MaxDkim=2, a seeded quarter of the verdict table; "
             "thorough: every row).",
-    "note": "SPF/DKIM results are injected (scripted check), DNS is a scripted resolver; the public suffix list is "
+    "note": "Besides DMARC alone: the same action table with a second, cooperating check of the pipeline that quarantines "
+            "(as check.spf does for an SPF fail) and over the per-recipient body path (BodyNonAtomic): a published reject "
+            "is still a refusal of the right class. SPF/DKIM results are injected (scripted check), DNS is a scripted resolver; the public suffix list is "
             "trusted and the model's org-domain constant is checked against it.",
     "design_ref": "DESIGN.md section 5 C07",
 }
